@@ -187,7 +187,13 @@ def run_case(case, ctx):
                     w = ref[key]
                     g = got[key]
                     sel = np.isfinite(w) if key == "kurtosis" else np.ones_like(w, dtype=bool)
-                    scale = np.maximum(1.0, np.abs(w)) if key != "var" else np.maximum(np.abs(w), 1e-12)
+                    # float32 accumulation error scales with the spread of the data (same gates as C10)
+                    if key == "mean":
+                        scale = np.maximum(np.maximum(np.abs(w), np.sqrt(ref["var"])), 1e-30)
+                    elif key == "var":
+                        scale = 2 * np.maximum(np.abs(w), 1e-12)
+                    else:
+                        scale = 5 * np.maximum(1.0, np.abs(w))
                     if not np.all(np.isfinite(g)) or np.any(np.abs(g - w)[sel] > 2e-4 * scale[sel]):
                         bad = (key, g[:4].tolist(), w[:4].tolist())
                         break
@@ -197,8 +203,13 @@ def run_case(case, ctx):
             ref_inf = _stats_vec(_call(fil, op, 10 * cfg["N"], start, nsamps, dm, ichan), op == "stats_basic")
             ctx.count("gulp_independence_checks")
             for key in got:
-                tol = 0 if key in ("count", "min", "max") else 1e-5
-                if np.any(np.abs(got[key] - ref_inf[key]) > tol * np.maximum(1.0, np.abs(ref_inf[key]))):
+                tol = 0 if key in ("count", "min", "max") else 2e-5
+                sc = np.maximum(1.0, np.abs(ref_inf[key]))
+                if key == "mean":
+                    sc = np.maximum(sc, np.sqrt(np.maximum(ref_inf["var"], 0)))
+                if key == "var":
+                    sc = np.maximum(np.abs(ref_inf[key]), 1e-6 * ref_inf["mean"] ** 2 + 1e-30)
+                if np.any(np.abs(got[key] - ref_inf[key]) > tol * sc):
                     ctx.violation(f"gulp-dependence:{tag}:{key}", f"{op} {key} for gulp={gulp} differs from single-block result", one)
                     break
             continue
